@@ -93,6 +93,9 @@ func (rt *rtCtx) writesFor(seq []*elem, writeEnds []int) ([][]byte, error) {
 	for _, b := range ws {
 		raw = append(raw, b...)
 	}
+	if writeEnds[len(writeEnds)-1] != len(raw) {
+		return nil, fmt.Errorf("write_ends must end at the stream length %d", len(raw))
+	}
 	return regroup(raw, writeEnds), nil
 }
 
@@ -439,9 +442,13 @@ func (rt *rtCtx) doJob(j rtJob) {
 		}
 	default:
 		cand := w.candidates(cfg.radius, true)
-		if n <= cfg.singlesAll {
+		switch {
+		case n <= cfg.singlesAll:
 			singles(allPositions(w.lo, n))
-		} else {
+		case len(cand) > 1000:
+			// e.g. 255 short header lines: +-1 around every CRLF and +-radius around the write boundaries
+			singles(uniqSorted(append(w.candidates(cfg.radius, false), w.candidates(1, true)...), w.lo, n-1))
+		default:
 			singles(cand)
 		}
 		if len(cand) > cfg.maxCand {
